@@ -233,3 +233,145 @@ package selector
 //@   props C07 C01
 //@   nopanic
 //@   modifies nothing
+
+// ---------------------------------------------------------------------------
+// selector.go / pseudo_classes.go: specificity (Selectors 4 §17) and the attribute
+// operators (Selectors 4 §6.1-6.2), property C05.
+
+// Specificity() of a selector is a function of the (immutable) selector value.
+// Components are counts (never negative): re-proved below for every implementation of Sel.
+//@ func iface (selector.Sel).Specificity
+//@   pure
+//@   ensures result[0] >= 0 && result[1] >= 0 && result[2] >= 0
+
+//@ func (tagSelector).Specificity
+//@   props C05 C03
+//@   nopanic
+//@   ensures result[0] == 0 && result[1] == 0 && result[2] == 1
+//@ func (classSelector).Specificity
+//@   props C05 C03
+//@   nopanic
+//@   ensures result[0] == 0 && result[1] == 1 && result[2] == 0
+//@ func (idSelector).Specificity
+//@   props C05 C03
+//@   nopanic
+//@   ensures result[0] == 1 && result[1] == 0 && result[2] == 0
+//@ func (attrSelector).Specificity
+//@   props C05 C03
+//@   nopanic
+//@   ensures result[0] == 0 && result[1] == 1 && result[2] == 0
+//@ func (abstractPseudoClass).Specificity
+//@   props C05 C03
+//@   nopanic
+//@   ensures result[0] == 0 && result[1] == 1 && result[2] == 0
+//@ func (neverMatchSelector).Specificity
+//@   props C05 C03
+//@   nopanic
+//@   ensures result[0] == 0 && result[1] == 0 && result[2] == 0
+
+// a compound selector sums its simple selectors, plus (0,0,1) for a pseudo-element.
+// Exact sums are stated for up to three simple selectors (the sum over a list of arbitrary
+// length has no closed form in the contract language); memory safety and termination for all.
+//@ func (compoundSelector).Specificity
+//@   props C05 C03
+//@   nopanic
+//@   requires forall(j, 0, len(s.selectors), s.selectors[j] != nil)
+//@   let pe = ite(s.pseudoElement != "", 1, 0)
+//@   ensures[empty] len(s.selectors) == 0 ==> result[0] == 0 && result[1] == 0 && result[2] == pe
+//@   ensures[counts] result[0] >= 0 && result[1] >= 0 && result[2] >= 0
+//@   ensures[one] len(s.selectors) == 1 ==> forall(k, 0, 3, result[k] == s.selectors[0].Specificity()[k] + ite(k == 2, pe, 0))
+//@   ensures[two] len(s.selectors) == 2 ==> forall(k, 0, 3, result[k] == s.selectors[0].Specificity()[k] + s.selectors[1].Specificity()[k] + ite(k == 2, pe, 0))
+//@   ensures[three] len(s.selectors) == 3 ==> forall(k, 0, 3, result[k] == s.selectors[0].Specificity()[k] + s.selectors[1].Specificity()[k] + s.selectors[2].Specificity()[k] + ite(k == 2, pe, 0))
+//@   loop 1 invariant rangeindex < len(s.selectors)
+//@   loop 1 invariant rangeindex == -1 ==> out[0] == 0 && out[1] == 0 && out[2] == 0
+//@   loop 1 invariant out[0] >= 0 && out[1] >= 0 && out[2] >= 0
+//@   loop 1 invariant rangeindex == 0 ==> forall(k, 0, 3, out[k] == s.selectors[0].Specificity()[k])
+//@   loop 1 invariant rangeindex == 1 ==> forall(k, 0, 3, out[k] == s.selectors[0].Specificity()[k] + s.selectors[1].Specificity()[k])
+//@   loop 1 invariant rangeindex == 2 ==> forall(k, 0, 3, out[k] == s.selectors[0].Specificity()[k] + s.selectors[1].Specificity()[k] + s.selectors[2].Specificity()[k])
+//@   loop 1 decreases len(s.selectors) - rangeindex
+
+// a complex selector adds the specificities of both sides of the combinator
+//@ func (combinedSelector).Specificity
+//@   props C05 C03
+//@   nopanic
+//@   requires s.first != nil
+//@   ensures s.second == nil ==> result == s.first.Specificity()
+//@   ensures[counts] result[0] >= 0 && result[1] >= 0 && result[2] >= 0
+//@   ensures s.second != nil ==> forall(k, 0, 3, result[k] == s.first.Specificity()[k] + s.second.Specificity()[k])
+
+// :is() / :not() / :has() take the specificity of their most specific argument
+//@ func (relativePseudoClassSelector).Specificity
+//@   props C05 C03
+//@   nopanic
+//@   requires forall(j, 0, len(s.match), s.match[j] != nil)
+//@   ensures[upper-bound] forall(j, 0, len(s.match), !result.Less(s.match[j].Specificity()))
+//@   ensures[attained] len(s.match) > 0 ==> exists(j, 0, len(s.match), result == s.match[j].Specificity())
+//@   ensures[empty] len(s.match) == 0 ==> result[0] == 0 && result[1] == 0 && result[2] == 0
+//@   ensures[counts] result[0] >= 0 && result[1] >= 0 && result[2] >= 0
+//@   loop 1 invariant rangeindex < len(s.match)
+//@   loop 1 invariant forall(j, 0, rangeindex + 1, !max.Less(s.match[j].Specificity()))
+//@   loop 1 invariant rangeindex == -1 ==> max[0] == 0 && max[1] == 0 && max[2] == 0
+//@   loop 1 invariant rangeindex >= 0 ==> exists(j, 0, rangeindex + 1, max == s.match[j].Specificity())
+//@   loop 1 invariant max[0] >= 0 && max[1] >= 0 && max[2] >= 0
+//@   loop 1 decreases len(s.match) - rangeindex
+
+// [att^=val], [att$=val], [att*=val]: "if val is the empty string then the selector does not
+// represent anything"; otherwise (this implementation never matches a blank attribute value)
+// the prefix / suffix / substring test on the attribute value.
+//@ func attributePrefixMatch$1
+//@   props C05
+//@   nopanic
+//@   ensures[empty-value] val == "" ==> !result
+//@   ensures val != "" && !ignoreCase && strings.TrimSpace(s) != "" ==> result == strings.HasPrefix(s, val)
+//@ func attributeSuffixMatch$1
+//@   props C05
+//@   nopanic
+//@   ensures[empty-value] val == "" ==> !result
+//@   ensures val != "" && !ignoreCase && strings.TrimSpace(s) != "" ==> result == strings.HasSuffix(s, val)
+//@ func attributeSubstringMatch$1
+//@   props C05
+//@   nopanic
+//@   ensures[empty-value] val == "" ==> !result
+//@   ensures val != "" && !ignoreCase && strings.TrimSpace(s) != "" ==> result == strings.Contains(s, val)
+
+//@ func matchInsensitiveValue
+//@   props C05
+//@   nopanic
+//@   ensures !ignoreCase ==> result == (s1 == s2)
+//@   ensures ignoreCase ==> result == strings.EqualFold(s1, s2)
+
+// [att|=val]: exactly val, or val immediately followed by "-"
+//@ func attributeDashMatch$1
+//@   props C05
+//@   nopanic
+//@   ensures !ignoreCase ==> result == (s == val || (len(s) > len(val) && s[len(val)] == '-' && s[:len(val)] == val))
+
+// membership in an ASCII set is a function of the set (never mutated after init) and the byte
+//@ func (*asciiSet).contains
+//@   props C05
+//@   pure refs
+
+// index of the first byte of s that belongs to the set, -1 if there is none
+//@ func (*asciiSet).index
+//@   props C05 C07
+//@   nopanic
+//@   requires as != nil
+//@   ensures result == -1 ==> forall(k, 0, len(s), !as.contains(s[k]))
+//@   ensures result != -1 ==> 0 <= result && result < len(s) && as.contains(s[result]) && forall(k, 0, result, !as.contains(s[k]))
+//@   loop 1 invariant 0 <= i && i <= len(s) && forall(k, 0, i, !as.contains(s[k]))
+//@   loop 1 decreases len(s) - i
+
+// [att~=val] (and class matching): "if val contains whitespace, it will never represent
+// anything (since the words are separated by spaces); also if val is the empty string"
+//@ func matchInclude
+//@   props C05 C07
+//@   nopanic
+//@   ensures[empty-value] val == "" ==> !result
+//@   ensures[whitespace-in-value] !ignoreCase && exists(k, 0, len(val), (&spaceAsciiSet).contains(val[k])) ==> !result
+//@   loop 1 decreases len(s)
+
+// :nth-child(an+b) and friends, a != 0: the 1-based index matches iff index = a*k + b for some k >= 0
+// (i holds index - b at the final return)
+//@ func nthChildMatch
+//@   props C05
+//@   return 5 ensures[anb] result == existsI(k, k >= 0 && a*k == i)
